@@ -1,14 +1,14 @@
 From Coq Require Import Extraction ExtrOcamlBasic.
 From PahoV Require Import Base.Prelude Link.Conn Link.ConnCheck Link.ConnWire Link.ConnInv Link.ConnStatements.
 Extraction Language OCaml.
-(* entry 4: [ext; sockcb; proto; nops; ops...] -> [c10_ops_ok; ops_wf] ++ verdicts of the model's own trace
+(* entry 4: [ext; sockcb; proto; nops; ops...] -> [c10_ops_ok; c16_ops_ok] ++ verdicts of the model's own trace
    (used to test the theorem statements themselves on random inputs) *)
 Definition entry_stmt (args : list Z) : list Z :=
   match args with
   | e :: sc :: p :: n :: rest =>
       let c := mkCfg (z2b e) (z2b sc) p in
       let ops := dec_ops (Z.to_nat n) rest in
-      [b2z (c10_ops_ok c ops); b2z (ops_wf c ops)] ++ verdicts c (optrace c ops)
+      [b2z (c10_ops_ok c ops); b2z (c16_ops_ok ops)] ++ verdicts c (optrace c ops)
   | _ => []
   end.
 Definition entries : list (Z * (list Z -> list Z)) :=
